@@ -888,12 +888,26 @@ fn process_write_batch(
     let mut retry_entries = Vec::new();
     let mut first_error = None;
 
+    // A superseded generation may only be skipped once its retirement entry has
+    // reached the flusher: a replacement queues the successor's write together
+    // with that entry, so the successor is then in this batch or an earlier one.
+    // Until then the superseded generation is the only copy a flush can make
+    // durable, and dropping it would let flush() acknowledge a key that is not
+    // on the device at all.
+    for entry in &entries {
+        if matches!(entry.op, Operation::Delete) {
+            entry.record.mark_retirement_queued();
+        }
+    }
+
     for entry in entries {
         match entry.op {
             Operation::Insert | Operation::Update => {
                 let sector = reserved_sector(&entry);
                 if entry.record.sector.load(Ordering::Acquire) == 0
-                    && (entry.record.refcount.load(Ordering::Acquire) > 0 || sector.is_some())
+                    && (entry.record.refcount.load(Ordering::Acquire) > 0
+                        || sector.is_some()
+                        || !entry.record.retirement_queued())
                 {
                     match prepare_record_data(&entry.record, format, disk_io) {
                         Ok(data) => {
